@@ -571,3 +571,53 @@ fn std_u16_parse_overflow() {
         Err(_) => assert!(v > 65535),
     }
 }
+
+// ---- prelude: std::str::from_utf8 / Utf8Error (valid_up_to, error_len) as assumed for the byte entry point of the
+// v1 parser (utf8_valid_up_to, utf8_truncated).  Bounded: every byte string of at most 4 bytes (all values symbolic).
+#[kani::proof]
+#[kani::unwind(8)]
+fn std_from_utf8_error_model() {
+    let buf: [u8; 4] = kani::any();
+    let len: usize = kani::any();
+    kani::assume(len <= 4);
+    let b = &buf[..len];
+    match std::str::from_utf8(b) {
+        Ok(s) => assert!(s.as_bytes() == b),
+        Err(e) => {
+            let v = e.valid_up_to();
+            // utf8_valid_up_to: the longest valid prefix
+            assert!(v < len);
+            assert!(std::str::from_utf8(&b[..v]).is_ok());
+            let j: usize = kani::any();
+            kani::assume(v < j && j <= len);
+            assert!(std::str::from_utf8(&b[..j]).is_err());
+            // utf8_truncated <== : if some continuation t makes b + t valid, the error is "unexpected end" (error_len None)
+            let t: [u8; 3] = kani::any();
+            let tl: usize = kani::any();
+            kani::assume(1 <= tl && tl <= 3 && len + tl <= 7);
+            let mut ext = [0u8; 7];
+            let mut i = 0;
+            while i < len { ext[i] = b[i]; i += 1; }
+            let mut k = 0;
+            while k < tl { ext[len + k] = t[k]; k += 1; }
+            if std::str::from_utf8(&ext[..len + tl]).is_ok() { assert!(e.error_len().is_none()); }
+            // utf8_truncated ==> : when error_len is None, a continuation exists - the canonical one for the lead byte
+            if e.error_len().is_none() {
+                let lead = b[v];
+                let need: usize = if lead >= 0xF0 { 4 } else if lead >= 0xE0 { 3 } else { 2 };
+                let have = len - v;
+                assert!(have < need);
+                let mut w = [0u8; 8];
+                let mut i = 0;
+                while i < len { w[i] = b[i]; i += 1; }
+                let mut pos = have;
+                while pos < need {
+                    // second byte: the narrowest range valid for the lead; later bytes: any continuation byte
+                    w[v + pos] = if pos == 1 { match lead { 0xE0 => 0xA0, 0xF0 => 0x90, _ => 0x80 } } else { 0x80 };
+                    pos += 1;
+                }
+                assert!(std::str::from_utf8(&w[..v + need]).is_ok());
+            }
+        }
+    }
+}
